@@ -16,7 +16,7 @@ from harness import common
 from harness import nodelib as NL
 from harness import rulelib as RL
 from harness.common import cstr, copt, clist, cpair
-from harness.c15 import node, walk, size, reid, ids_of, fresh_strs
+from harness.c15 import node, walk, size, reid, ids_of, fresh_strs, limited, DidNotReturn
 
 HEADER = "From MP Require Import Common.Base Common.Tree Model.Prune Model.PruneRun Model.Expand Model.ExpandRun.\n"
 
@@ -117,6 +117,15 @@ def gen_documents(ctx):
                     srcs = [f"p{j}" for j in range(m)]
                     if rng.random() < 0.15:
                         srcs[0] = ""                       # falsy but legal id value / reference content
+                    if rng.random() < 0.3:
+                        # ids compared verbatim: surrounding whitespace, case, a trailing newline, NFC vs NFD
+                        fam = rng.choice([["p0", " p0", "p0 ", "P0", "p0\n", "\tp0"], ["caf\u00e9", "cafe\u0301", "Caf\u00e9", " caf\u00e9"]])
+                        if m == 1:
+                            srcs[0] = rng.choice(fam[1:])
+                        else:
+                            pick = [fam[0]] + rng.sample(fam[1:], m - 1)
+                            rng.shuffle(pick)
+                            srcs = pick
                     parties, si = [], 0
                     src_names = {}
                     for a in arr:
@@ -342,12 +351,18 @@ def run_impl(t):
     Node.set_node_instance = classmethod(logging_set)
     try:
         try:
-            references.expand(root)
+            limited(lambda: references.expand(root), 5.0)
             o["exc"] = None
+        except DidNotReturn:
+            o["exc"] = "NON-TERMINATION"
         except Exception as e:  # noqa
             o["exc"] = type(e).__name__
     finally:
         Node.set_node_instance = orig
+    if o["exc"] == "NON-TERMINATION":
+        o.update({"after_raw": None, "store_after_raw": [], "created": created, "unchanged": False})
+        Node.store.clear()
+        return o
     o["after_raw"] = NL.snapshot(root)
     o["store_after_raw"] = list(Node.store.keys())
     o["created"] = created
@@ -380,7 +395,7 @@ def run_impl(t):
     Node.store.clear()
     # the other direction on a second run
     root2 = NL.build(fresh_strs(t), attach=False)
-    references.expand(root2)
+    limited(lambda: references.expand(root2), 5.0)
     new_ids2 = {n.id for n in _nodes(root2)} - old
     c0 = fields_by_id(root2, new_ids2)
     for n in [x for x in _nodes(root2) if x.id in src_ids]:
@@ -419,6 +434,8 @@ def ns_agree(t):
 
 def statement_violations(t, o):
     v = []
+    if o["exc"] == "NON-TERMINATION":
+        return [("non-termination", "expand did not return within the per-call time limit (5 s) on this document")]
     exp = spec_expand(t)
     old = set(ids_of(t))
     if exp == "ValueError":
@@ -592,7 +609,7 @@ def choose_edits(rng, snap):
         extra = [add(ref_party(v))] if rng.random() < 0.5 else []
         return tag, [add(party(rng, rng.choice(PLAIN), "src", v))] + extra
     if tag == "retarget":
-        v = rng.choice(["new%d" % rng.randint(0, 99), ""])
+        v = rng.choice(["new%d" % rng.randint(0, 99), "", " new1", "new1 ", "New1", "new1\n"])
         return tag, [add(party(rng, rng.choice(PLAIN + ROLED), "src", v)), add(ref_party(v, rng.choice(PLAIN + ROLED)), 1)]
     if tag == "dangling-ref":
         return tag, [add(ref_party("nowhere"))]
@@ -634,8 +651,10 @@ def fresh_expand(snap):
     try:
         root = NL.build(fresh_strs(snap), attach=False)
         try:
-            references.expand(root)
+            limited(lambda: references.expand(root), 5.0)
             exc = None
+        except DidNotReturn:
+            return "NON-TERMINATION", None
         except Exception as e:  # noqa
             exc = type(e).__name__
         return exc, NL.snapshot(root)
@@ -661,14 +680,20 @@ def run_history(t, steps_edits=None, rng=None, max_steps=3):
         before = NL.deep_state([root])
         going = [n for n in _nodes(root) if n.name == "references" and n is not root]
         try:
-            references.expand(root)
+            limited(lambda: references.expand(root), 5.0)
             exc = None
+        except DidNotReturn:
+            v.append(("history:non-termination", f"call {step + 1} on the same tree objects did not return within 5 s", step))
+            log.append({"step": step, "expected": "?", "observed": "NON-TERMINATION", "fresh_tree_observed": "?"})
+            break
         except Exception as e:  # noqa
             exc = type(e).__name__
         if exc is None and going:
             removed = going
         after = NL.snapshot(root)
         fexc, fafter = fresh_expand(snap)
+        if fafter is None:
+            fafter = after
         log.append({"step": step, "expected": "ValueError" if exp == "ValueError" else "expanded", "observed": exc or "expanded",
                     "fresh_tree_observed": fexc or "expanded"})
         if exp == "ValueError":
